@@ -710,6 +710,9 @@ where
     let cfg = &sc.cfg;
     let scen = sc.name.clone();
     let no_disc_scen = !sc.ops.iter().any(|o| o[0] == "kill" || o[0] == "disc");
+    // finality of confirmed inputs (C03) is monitored where nothing can legitimately move a cut-off: runs
+    // without a disconnect, and two-peer sessions (no third peer whose gossip could lower it)
+    let finality_scen = no_disc_scen || peers.iter().filter(|p| matches!(p.spec, PeerSpec::P2P { .. })).count() == 2;
     // the host's confirmed frame, for the spectator monitor
     let host_conf: HashMap<Addr, Frame> = peers.iter().map(|p| (p.id, p.mon.confirmed_max)).collect();
     let p = &mut peers[idx];
@@ -854,7 +857,7 @@ where
                 }
                 // confirmed_frame() monotone + finality
                 let conf = guarded(|| s.confirmed_frame()).unwrap_or(-1);
-                if no_disc_scen {
+                if finality_scen {
                     if conf < p.mon.confirmed_max {
                         out.hit("C03", "confirmed-frame-decreased", &scen, &format!("peer {id}: confirmed_frame() went from {} to {conf}", p.mon.confirmed_max));
                     }
